@@ -28,10 +28,15 @@ impl Iterator for Points {
     type Item = Point;
 
     fn next(&mut self) -> Option<Self::Item> {
-        self.current_scanline.next().or_else(|| {
+        // Rows without any pixel (the top and bottom rows of narrow shapes with tall corners) are
+        // skipped instead of ending the iteration.
+        loop {
+            if let Some(point) = self.current_scanline.next() {
+                return Some(point);
+            }
+
             self.current_scanline = self.scanlines.next()?;
-            self.current_scanline.next()
-        })
+        }
     }
 }
 
